@@ -980,3 +980,18 @@ Proof.
   exists (upd (fun _ => None) 7%N (Some (Some 5))), 7%N, 10, 11, 3600011.
   vm_compute. repeat split; congruence.
 Qed.
+
+(* the bucket table is a total map: a request of ANOTHER address never touches the bucket of ip, however many other
+   addresses show up (no cap on the table, no wholesale clearing) *)
+Lemma bucket_untouched_by_other_addresses V C k n s p' s' r ip :
+  ip <> k -> start V C (CAllowIP k n) s = (p', s', r) -> bk s' ip = bk s ip.
+Proof.
+  intros Hne H. cbn [start] in H. destruct (take C (now s) n (bk s k)) as [b ok]. pair_inv H.
+  cbn [bk set_bk]. apply upd_other, Hne.
+Qed.
+Lemma bucket_untouched_by_other_handshakes V C k kd s p' s' r ip :
+  ip <> k -> continue V C (PHs3 k kd) s = (p', s', r) -> bk s' ip = bk s ip.
+Proof.
+  intros Hne H. cbn [continue] in H. destruct (take C (now s) 1 (bk s k)) as [b ok].
+  destruct ok; pair_inv H; cbn [bk set_bk]; apply upd_other, Hne.
+Qed.
